@@ -305,7 +305,104 @@ func propC20(c *Ctx) {
 	runExported := w.Fn("shovel", "(*Manager).Run")
 	runTask := w.Fn("shovel", "(*Manager).runTask")
 	fRunning := w.Field("shovel", "Manager", "running")
-	fRestart := w.Field("shovel", "Manager", "restart")
+	fRestart := w.FieldMaybe("shovel", "Manager", "restart")
+	if fRestart == nil {
+		// the stop token under another name, possibly wrapped (`current generation` with the channel
+		// inside): the Manager field of the type the generation body is started with
+		if mst, ok := w.Named("shovel", "Manager").Underlying().(*types.Struct); ok && len(run.Params) == 3 {
+			var cands []*types.Var
+			for i := 0; i < mst.NumFields(); i++ {
+				if types.Identical(mst.Field(i).Type(), run.Params[2].Type()) {
+					cands = append(cands, mst.Field(i))
+				}
+			}
+			if len(cands) == 1 {
+				fRestart = cands[0]
+			}
+		}
+		if fRestart == nil {
+			fatalf("anchor: field shovel.Manager.restart not found")
+		}
+	}
+	// chanOfToken: v is the stop channel of the token value tok: tok itself, or its channel member
+	chanMember := func(v ssa.Value) (ssa.Value, bool) {
+		v = stripConv(v)
+		if _, isCh := v.Type().Underlying().(*types.Chan); !isCh {
+			return nil, false
+		}
+		switch x := v.(type) {
+		case *ssa.Field:
+			return x.X, true
+		case *ssa.UnOp:
+			if fa, ok := x.X.(*ssa.FieldAddr); ok && x.Op == token.MUL {
+				return fa.X, true
+			}
+		}
+		return nil, false
+	}
+	// isCurrentStop: v is the channel of the Manager's current token (read from the field)
+	isCurrentStop := func(reg *Region, v ssa.Value) bool {
+		if isLoadOfField(v, fRestart) {
+			return true
+		}
+		base, ok := chanMember(v)
+		if !ok {
+			return false
+		}
+		b := reg.Resolve(stripConv(base))
+		if al, isAl := b.(*ssa.Alloc); isAl {
+			if cv := cellValue(al); cv != nil {
+				b = reg.Resolve(stripConv(cv)) // the spilled value receiver
+			}
+		}
+		if isLoadOfField(b, fRestart) {
+			return true
+		}
+		if fa, isFA := b.(*ssa.FieldAddr); isFA {
+			f, _ := fieldOf(fa)
+			return f == fRestart
+		}
+		return false
+	}
+	// freshToken: v is a channel made here, or a token whose channel member is made by the
+	// constructor call v is the result of
+	freshToken := func(v ssa.Value) bool {
+		if _, ok := v.(*ssa.MakeChan); ok {
+			return true
+		}
+		st, ok := v.Type().Underlying().(*types.Struct)
+		if !ok {
+			return false
+		}
+		for i := 0; i < st.NumFields(); i++ {
+			if _, isCh := st.Field(i).Type().Underlying().(*types.Chan); !isCh {
+				continue
+			}
+			fv, ok := fieldValue(cv(v), i, false, 0)
+			if !ok {
+				return false
+			}
+			u := unfold(fv)
+			_, isMk := u.v.(*ssa.MakeChan)
+			return isMk && (len(u.stack) > 0 || u.v.(*ssa.MakeChan).Parent() == v.(ssa.Instruction).Parent())
+		}
+		return false
+	}
+	// stopParam: the parameter a polled channel belongs to (the channel itself, a member of it,
+	// or what a getter of it hands out)
+	stopParam := func(v ssa.Value) *ssa.Parameter {
+		if p, ok := accessPath(v).Root.(*ssa.Parameter); ok {
+			return p
+		}
+		c := unfoldV(v)
+		if _, isCall := c.v.(*ssa.Call); isCall {
+			if in, ok := unfoldGetter(c); ok {
+				c = in
+			}
+		}
+		root, _ := deepFieldChainC(c)
+		return rootParam(root)
+	}
 	var lockCall *ssa.Call
 	var deferUnlock *ssa.Defer
 	explicitUnlock := false
@@ -451,7 +548,7 @@ func propC20(c *Ctx) {
 	sreg.AllInstrs(func(in ssa.Instruction) {
 		switch x := in.(type) {
 		case *ssa.Call:
-			if b, ok := x.Call.Value.(*ssa.Builtin); ok && b.Name() == "close" && isLoadOfField(x.Call.Args[0], fRestart) {
+			if b, ok := x.Call.Value.(*ssa.Builtin); ok && b.Name() == "close" && isCurrentStop(sreg, x.Call.Args[0]) {
 				closeCall = x
 			}
 		case *ssa.Go:
@@ -488,22 +585,37 @@ func propC20(c *Ctx) {
 		var installedBy *ssa.Store
 		if g, ok := goRun.(*ssa.Go); ok && len(g.Call.Args) == 3 {
 			lv := sreg.Leaves(g.Call.Args[2])
+			if debugOn() {
+				for _, l := range lv {
+					fmt.Printf("DEBUG fresh leaf %T %s fresh=%v\n", l, sym(l), freshToken(l))
+				}
+			}
 			if len(lv) == 1 {
 				switch x := lv[0].(type) {
 				case *ssa.MakeChan:
 					fresh = x
 				case *ssa.UnOp:
 					if isLoadOfField(x, fRestart) && len(stores) == 1 && stores[0].Parent() == x.Parent() && dominatesInstr(stores[0], x) {
-						if mk, ok := stores[0].Val.(*ssa.MakeChan); ok && sameBase(stores[0].Addr, x.X) {
-							fresh = mk
+						if freshToken(stores[0].Val) && sameBase(stores[0].Addr, x.X) {
+							fresh = stores[0].Val
 						}
+					} else if freshToken(x) {
+						fresh = x // the literal an inlined constructor returns
+					}
+				default:
+					if freshToken(x) {
+						fresh = x
 					}
 				}
 			}
 		}
 		installed := false
 		for _, st := range stores {
-			if fresh != nil && st.Val == fresh && closeCall != nil && sreg.Dominates(closeCall, st) && sreg.Dominates(st, goRun) {
+			same := st.Val == fresh
+			if lv := sreg.Leaves(st.Val); !same && len(lv) == 1 && lv[0] == fresh {
+				same = true
+			}
+			if fresh != nil && same && closeCall != nil && sreg.Dominates(closeCall, st) && sreg.Dominates(st, goRun) {
 				installed = true
 				installedBy = st
 			}
@@ -621,8 +733,8 @@ func propC20(c *Ctx) {
 	}
 	var polls []poll
 	if sel, taken, _ := selectStop(runTask, func(v ssa.Value) bool {
-		p, ok := accessPath(v).Root.(*ssa.Parameter)
-		return ok && p.Parent() == runTask && paramIndex(p) == 2
+		p := stopParam(v)
+		return p != nil && p.Parent() == runTask && paramIndex(p) == 2
 	}); sel != nil {
 		polls = append(polls, poll{sel, taken})
 	}
@@ -642,7 +754,7 @@ func propC20(c *Ctx) {
 			continue
 		}
 		hp := h.Params[pi]
-		sel, taken, _ := selectStop(h, func(v ssa.Value) bool { return accessPath(v).Root == ssa.Value(hp) })
+		sel, taken, _ := selectStop(h, func(v ssa.Value) bool { return stopParam(v) == hp })
 		if sel == nil {
 			continue
 		}
